@@ -256,6 +256,7 @@ type c16Drv struct {
 	obj            device.Driver
 	con            *c16Console
 	tty            *c16TTY
+	initEnter      int // len(act) when DriverInit was entered
 	initExit       int // len(act) when DriverInit returned
 	initOK         bool
 }
@@ -414,12 +415,12 @@ func (e *c16Env) emit(expected []byte, tokAt int, tokID int, do func()) {
 		if len(dr) > 0 {
 			e.c.Violationf("logged-to-early-ring-after-handover", "a log write of %d bytes after the hand-over put %d bytes into the early ring", len(expected), len(dr))
 		}
-		e.run.Count("hal_bytes_logged_after_handover", int64(len(expected)))
+		e.run.Count("hal_harness_bytes_logged_after_handover", int64(len(expected)))
 	} else {
 		if len(dt) > 0 {
 			e.c.Violationf("terminal-written-before-handover", "a log write before the hand-over reached a terminal (%d bytes)", len(dt))
 		}
-		e.run.Count("hal_bytes_logged_before_handover", int64(len(expected)))
+		e.run.Count("hal_harness_bytes_logged_before_handover", int64(len(expected)))
 	}
 	if !bytes.Equal(got, expected) {
 		at := c16FirstDiff(got, expected)
@@ -544,6 +545,7 @@ func (e *c16Env) countOK(kind int) int {
 func (e *c16Env) onInit(d *c16Drv, w io.Writer) *kernel.Error {
 	e.syncHal()
 	d.inited++
+	d.initEnter = len(e.act)
 	pw := &c16PW{w: w, atLineStart: true}
 	if real, ok := w.(*kfmt.PrefixWriter); ok {
 		pw.known = true
@@ -741,7 +743,7 @@ func c16Gen(r *vlib.Rand) *c16Spec {
 	s.orderMode = r.Intn(5)
 	s.style = r.Intn(4)
 	two := [2]int8{int8(r.Intn(256) - 128), int8(r.Intn(256) - 128)}
-	kindMode := r.Intn(4)
+	kindMode := r.Intn(2)
 	for i := 0; i < nd; i++ {
 		d := &c16Drv{id: i}
 		x := r.Intn(100)
@@ -806,6 +808,15 @@ func c16Gen(r *vlib.Rand) *c16Spec {
 			d.initOps = c16Ops(r, r.Range(1, 900), s.style, true, 3)
 		}
 		s.drivers = append(s.drivers, d)
+	}
+	if nd >= 2 && r.Chance(1, 2) {
+		// make sure a pair can come up: one good console, one good terminal
+		p := r.Perm(nd)
+		a, b := s.drivers[p[0]], s.drivers[p[1]]
+		a.kind, a.probeNil, a.initFail = c16KindCon, false, false
+		b.kind, b.probeNil, b.initFail = c16KindTTY, false, false
+		a.name = "c16con" + a.name[6:]
+		b.name = "c16tty" + b.name[6:]
 	}
 	// registration arrangement
 	s.arrMode = r.Intn(6)
@@ -1045,27 +1056,23 @@ func c16Check(e *c16Env, s *c16Spec) {
 		if d.obj == nil || d.initOK {
 			continue
 		}
+		// The error text must follow the driver's DriverInit; the driver's name must
+		// precede it and be no older than the start of that DriverInit (hal may have
+		// put it in front of a line the driver itself left unfinished, and a driver
+		// that also logs directly can push the report onto a line of its own).
 		found := false
-		// the report may continue a line the driver itself left unfinished
-		from := d.initExit
-		for from > 0 && e.act[from-1] != '\n' {
-			from--
-		}
-		rest := e.act[from:]
-		for len(rest) > 0 {
-			line := rest
-			if i := bytes.IndexByte(rest, '\n'); i >= 0 {
-				line, rest = rest[:i], rest[i+1:]
-			} else {
-				rest = nil
-			}
-			if bytes.Contains(line, []byte(d.name)) && bytes.Contains(line, []byte(d.errMsg)) {
+		from := d.initEnter
+		if k := bytes.Index(e.act[d.initExit:], []byte(d.errMsg)); k >= 0 {
+			at := d.initExit + k
+			if n := bytes.LastIndex(e.act[from:at], []byte(d.name)); n >= 0 {
 				found = true
-				break
+				if bytes.IndexByte(e.act[from+n:at], '\n') < 0 {
+					run.Count("hal_failure_reports_name_and_error_on_one_line", 1)
+				}
 			}
 		}
 		if !found {
-			c.Violationf("init-failure-not-reported", "driver %s failed with %q; no log line after its DriverInit names both; log that followed: %s", d.name, d.errMsg, c16Around(e.act[from:], 24))
+			c.Violationf("init-failure-not-reported", "driver %s failed with %q; the log after the start of its DriverInit does not name the driver followed by that error text; log from there: %s", d.name, d.errMsg, c16Around(e.act[from:], 24))
 		} else {
 			run.Count("hal_failure_reports_found", 1)
 			c16Tally.failReports++
